@@ -541,6 +541,17 @@ impl<T: BitWrite> PackedWrite for T {
         let lower_bound_unwrapped = const_unwrap_or!(lower_bound, 0);
         let upper_bound_unwrapped = const_unwrap_or!(upper_bound, i64::MAX as u64);
 
+        if value < lower_bound_unwrapped
+            || (const_is_some!(upper_bound) && value > upper_bound_unwrapped)
+        {
+            return Err(ErrorKind::SizeNotInRange(
+                value,
+                lower_bound_unwrapped,
+                upper_bound_unwrapped,
+            )
+            .into());
+        }
+
         if (const_is_some!(lower_bound) || const_is_some!(upper_bound))
             && upper_bound_unwrapped >= LENGTH_64K
         {
